@@ -379,6 +379,338 @@ fn passthrough_line(r: &mut Rng, c: &mut Config) -> String {
     )
 }
 
+const QUERIES: &[&str] = &["SELECT 1", "SELECT $1", "SELECT $1::text, $2"];
+
+fn typesets() -> Vec<Vec<tokio_postgres::types::Type>> {
+    use tokio_postgres::types::Type;
+    vec![vec![], vec![Type::INT4], vec![Type::TEXT], vec![Type::INT4, Type::TEXT], vec![Type::TEXT, Type::INT4]]
+}
+
+fn types_tok(t: &[tokio_postgres::types::Type]) -> String {
+    if t.is_empty() {
+        "-".into()
+    } else {
+        t.iter().map(|t| t.oid().to_string()).collect::<Vec<_>>().join(",")
+    }
+}
+
+async fn whoami(c: &tokio_postgres::Client) -> i64 {
+    match c.simple_query("WHOAMI").await {
+        Ok(msgs) => msgs
+            .iter()
+            .find_map(|m| match m {
+                tokio_postgres::SimpleQueryMessage::Row(r) => r.get(0).and_then(|v| v.parse().ok()),
+                _ => None,
+            })
+            .unwrap_or(-1),
+        Err(_) => -1,
+    }
+}
+
+async fn wire_history(rng: &mut Rng) -> usize {
+    let srv = wire::Server::start();
+    let max = 1 + rng.below(3);
+    let len = 5 + rng.below(18);
+    let (method, mtok) = match rng.below(4) {
+        0 => (RecyclingMethod::Fast, "fast".to_string()),
+        1 => (RecyclingMethod::Verified, "verified".to_string()),
+        2 => (RecyclingMethod::Clean, "clean".to_string()),
+        _ => (RecyclingMethod::Custom("SELECT 42".into()), format!("custom sql={}", hex(b"SELECT 42"))),
+    };
+    let has_query = !matches!(method, RecyclingMethod::Fast);
+    let mut pg = tokio_postgres::Config::new();
+    pg.host("127.0.0.1").port(srv.port).user("u").dbname("d");
+    let mgr = deadpool_postgres::Manager::from_config(pg, NoTls, ManagerConfig { recycling_method: method });
+    let pool = deadpool_postgres::Pool::builder(mgr).max_size(max).runtime(Runtime::Tokio1).build().unwrap();
+    let tmo = Timeouts { wait: Some(Duration::ZERO), create: None, recycle: None };
+    let mut hist: Vec<String> = Vec::new();
+    let emit = |inp: String, out: String, hist: &mut Vec<String>| {
+        println!("{inp}");
+        println!("{out}");
+        hist.push(format!("{inp} => {out}"));
+        println!("pwx history {}", hist.join(" ;; "));
+    };
+    emit(format!("pw cfg max={max} method={mtok}"), "pwobs cfg ok".into(), &mut hist);
+    let mut held: Vec<(deadpool_postgres::Object, usize)> = Vec::new();
+    let mut taken: Vec<(deadpool_postgres::ClientWrapper, usize)> = Vec::new();
+    let mut idle_ids: Vec<usize> = Vec::new();
+    let mut closed: Vec<usize> = Vec::new();
+    let status = |head: String| {
+        let st = pool.status();
+        format!("pwobs {head} size={} avail={} max={}", st.size, st.available, st.max_size)
+    };
+    let sets = typesets();
+    for _ in 0..len {
+        let k = rng.below(100);
+        if held.is_empty() && idle_ids.is_empty() || (k < 25 && (held.len() < max || rng.chance(15))) {
+            let avail = pool.status().available;
+            let mut toks: Vec<&str> = Vec::new();
+            if has_query {
+                for _ in 0..avail {
+                    let t = match rng.below(100) {
+                        0..=54 => "ok",
+                        55..=79 => "error",
+                        _ => "disconnect",
+                    };
+                    toks.push(t);
+                    if t == "ok" {
+                        break;
+                    }
+                }
+            }
+            let before: usize = {
+                let mut st = srv.state.lock().unwrap();
+                st.replies.clear();
+                for t in &toks {
+                    st.replies.push_back(match *t {
+                        "ok" => wire::Reply::Ok,
+                        "error" => wire::Reply::Error,
+                        _ => wire::Reply::Disconnect,
+                    });
+                }
+                st.seq
+            };
+            let r = pool.timeout_get(&tmo).await;
+            let mut seen: Vec<(usize, usize, String)> = {
+                let st = srv.state.lock().unwrap();
+                st.conns
+                    .iter()
+                    .enumerate()
+                    .flat_map(|(i, c)| c.queries.iter().filter(|q| q.0 > before).map(move |q| (q.0, i, q.1.clone())))
+                    .collect()
+            };
+            seen.sort();
+            let shown: Vec<String> = seen.iter().map(|(_, i, q)| format!("{i}:{}", hex(q.as_bytes()))).collect();
+            // a connection the server hung up on during its check is closed from now on
+            for ((_, i, _), t) in seen.iter().zip(toks.iter()) {
+                if *t == "disconnect" {
+                    closed.push(*i);
+                }
+            }
+            let inp = format!("pw get {}", toks.join(" "));
+            match r {
+                Ok(c) => {
+                    let who = whoami(&c).await;
+                    if who < 0 {
+                        println!("pwx a client that cannot talk to the server any more (closed: {}) was handed out", c.is_closed());
+                        emit(inp, status(format!("res=ok:closed queries=[{}]", shown.join(","))), &mut hist);
+                        return hist.len();
+                    }
+                    match idle_ids.iter().position(|i| *i as i64 == who) {
+                        Some(p) => {
+                            let _ = idle_ids.drain(..=p);
+                        }
+                        None => idle_ids.clear(),
+                    }
+                    emit(inp, status(format!("res=ok:{who} queries=[{}]", shown.join(","))), &mut hist);
+                    held.push((c, who as usize));
+                }
+                Err(e) => {
+                    let e = match e {
+                        deadpool_postgres::PoolError::Timeout(deadpool::managed::TimeoutType::Wait) => "timeout_wait",
+                        deadpool_postgres::PoolError::Timeout(_) => "timeout_other",
+                        deadpool_postgres::PoolError::Backend(_) => "backend",
+                        deadpool_postgres::PoolError::Closed => "closed",
+                        deadpool_postgres::PoolError::NoRuntimeSpecified => "no_runtime",
+                        deadpool_postgres::PoolError::PostCreateHook(_) => "post_create_hook",
+                    };
+                    if e != "timeout_wait" {
+                        idle_ids.clear();
+                    }
+                    emit(inp, status(format!("res={e} queries=[{}]", shown.join(","))), &mut hist);
+                }
+            }
+        } else if k < 40 && !held.is_empty() {
+            let (c, who) = held.swap_remove(rng.below(held.len()));
+            drop(c);
+            idle_ids.push(who);
+            emit(format!("pw ret {who}"), status("done".into()), &mut hist);
+        } else if k < 47 && !held.is_empty() {
+            let (c, who) = held.swap_remove(rng.below(held.len()));
+            let raw = deadpool_postgres::Object::take(c);
+            taken.push((raw, who));
+            emit(format!("pw take {who}"), status("done".into()), &mut hist);
+        } else if k < 57 {
+            // the server hangs up on a connection: one in a caller's hands or an idle one
+            let open_held: Vec<usize> = held.iter().map(|h| h.1).filter(|i| !closed.contains(i)).collect();
+            let open_idle: Vec<usize> = idle_ids.iter().copied().filter(|i| !closed.contains(i)).collect();
+            let pick_held = !open_held.is_empty() && (open_idle.is_empty() || rng.chance(50));
+            if pick_held {
+                let who = open_held[rng.below(open_held.len())];
+                srv.kill(who);
+                let c = &held.iter().find(|h| h.1 == who).unwrap().0;
+                for _ in 0..2000 {
+                    if c.is_closed() {
+                        break;
+                    }
+                    tokio::time::sleep(Duration::from_micros(500)).await;
+                }
+                closed.push(who);
+                emit(format!("pw kill {who}"), status("done".into()), &mut hist);
+            } else if !open_idle.is_empty() {
+                let who = open_idle[rng.below(open_idle.len())];
+                srv.kill(who);
+                closed.push(who);
+                let want = idle_ids.iter().filter(|i| closed.contains(i)).count();
+                for _ in 0..2000 {
+                    let mut n = 0usize;
+                    let _ = pool.retain(|c, _| {
+                        if c.is_closed() {
+                            n += 1;
+                        }
+                        true
+                    });
+                    if n >= want {
+                        break;
+                    }
+                    tokio::time::sleep(Duration::from_micros(500)).await;
+                }
+                emit(format!("pw kill {who}"), status("done".into()), &mut hist);
+            }
+        } else if k < 80 {
+            let open_held: Vec<usize> = (0..held.len()).filter(|i| !closed.contains(&held[*i].1)).collect();
+            if open_held.is_empty() {
+                continue;
+            }
+            let idx = open_held[rng.below(open_held.len())];
+            let who = held[idx].1;
+            // mostly from a small set of keys, so that hits are common
+            let q = QUERIES[if rng.chance(60) { rng.below(2) } else { rng.below(QUERIES.len()) }];
+            let types = &sets[if rng.chance(60) { 1 + rng.below(2) } else { rng.below(sets.len()) }];
+            let parses_before = srv.state.lock().unwrap().conns[who].parses.len();
+            let c = &held[idx].0;
+            if rng.chance(20) {
+                // two concurrent prepares of the same key on the same client
+                let (a, b) = tokio::join!(c.prepare_typed_cached(q, types), c.prepare_typed_cached(q, types));
+                let rt = srv.state.lock().unwrap().conns[who].parses.len() - parses_before;
+                // which of the two inserts came last is the scheduler's choice: observe it (the
+                // statement that stayed in the cache) and hand it to the model as an input
+                let mut order = "01";
+                if let (Ok(_), Ok(_), Ok(kept)) = (&a, &b, c.prepare_typed_cached(q, types).await) {
+                    let n = kept.params().len();
+                    let params: Vec<Box<dyn tokio_postgres::types::ToSql + Sync>> = kept
+                        .params()
+                        .iter()
+                        .map(|t| -> Box<dyn tokio_postgres::types::ToSql + Sync> {
+                            if *t == tokio_postgres::types::Type::INT4 { Box::new(1i32) } else { Box::new("x".to_string()) }
+                        })
+                        .collect();
+                    let refs: Vec<&(dyn tokio_postgres::types::ToSql + Sync)> = params.iter().map(|b| b.as_ref()).collect();
+                    let _ = n;
+                    if c.execute(&kept, &refs).await.is_ok() {
+                        let st = srv.state.lock().unwrap();
+                        let log = &st.conns[who];
+                        if let Some(kidx) = log.binds.last().and_then(|name| log.parses.iter().position(|p| &p.0 == name)) {
+                            if rt == 2 && kidx == parses_before {
+                                order = "10";
+                            }
+                        }
+                    }
+                }
+                let out = if a.is_ok() && b.is_ok() {
+                    format!("pwobs prep2 rt={rt} csize={}", c.statement_cache.size())
+                } else {
+                    "pwobs prep2 failed".to_string()
+                };
+                emit(format!("pw prep2 {who} {} {} {order}", hex(q.as_bytes()), types_tok(types)), out, &mut hist);
+                continue;
+            }
+            let inp = format!("pw prep {who} {} {}", hex(q.as_bytes()), types_tok(types));
+            match c.prepare_typed_cached(q, types).await {
+                Err(_) => emit(inp, "pwobs prep failed".into(), &mut hist),
+                Ok(stmt) => {
+                    let params: Vec<Box<dyn tokio_postgres::types::ToSql + Sync>> = stmt
+                        .params()
+                        .iter()
+                        .map(|t| -> Box<dyn tokio_postgres::types::ToSql + Sync> {
+                            if *t == tokio_postgres::types::Type::INT4 {
+                                Box::new(1i32)
+                            } else {
+                                Box::new("x".to_string())
+                            }
+                        })
+                        .collect();
+                    let refs: Vec<&(dyn tokio_postgres::types::ToSql + Sync)> = params.iter().map(|b| b.as_ref()).collect();
+                    let ex = c.execute(&stmt, &refs).await;
+                    let st = srv.state.lock().unwrap();
+                    let log = &st.conns[who];
+                    let rt = log.parses.len() - parses_before;
+                    // which statement did the server see bound on this connection?
+                    let ident = match (ex.is_ok(), log.binds.last()) {
+                        (true, Some(name)) => match log.parses.iter().position(|p| &p.0 == name) {
+                            Some(kidx) => {
+                                let p = &log.parses[kidx];
+                                let want: Vec<u32> = types.iter().map(|t| t.oid()).collect();
+                                if p.1 != q || p.2 != want {
+                                    println!("pwx statement for ({q}, {:?}) was prepared as ({}, {:?})", want, p.1, p.2);
+                                }
+                                format!("{who}:{kidx}")
+                            }
+                            None => {
+                                println!("pwx statement {name} bound on connection {who} was never prepared there");
+                                "?".into()
+                            }
+                        },
+                        _ => "?".into(),
+                    };
+                    let out = format!("pwobs prep stmt={ident} rt={rt} csize={}", c.statement_cache.size());
+                    drop(st);
+                    emit(inp, out, &mut hist);
+                }
+            }
+        } else if k < 86 && !held.is_empty() {
+            let idx = rng.below(held.len());
+            let who = held[idx].1;
+            if rng.chance(70) {
+                let q = QUERIES[rng.below(QUERIES.len())];
+                let types = &sets[rng.below(sets.len())];
+                let _ = held[idx].0.statement_cache.remove(q, types);
+                emit(
+                    format!("pw rm {who} {} {}", hex(q.as_bytes()), types_tok(types)),
+                    format!("pwobs done csize={}", held[idx].0.statement_cache.size()),
+                    &mut hist,
+                );
+            } else {
+                held[idx].0.statement_cache.clear();
+                emit(format!("pw clear {who}"), format!("pwobs done csize={}", held[idx].0.statement_cache.size()), &mut hist);
+            }
+        } else if k < 92 {
+            if rng.chance(50) {
+                pool.manager().statement_caches.clear();
+                emit("pw regclear".into(), "pwobs done".into(), &mut hist);
+            } else {
+                let q = QUERIES[rng.below(QUERIES.len())];
+                let types = &sets[rng.below(sets.len())];
+                pool.manager().statement_caches.remove(q, types);
+                emit(format!("pw regrm {} {}", hex(q.as_bytes()), types_tok(types)), "pwobs done".into(), &mut hist);
+            }
+        } else {
+            let mut h: Vec<(usize, usize)> = held.iter().map(|(c, w)| (*w, c.statement_cache.size())).collect();
+            h.sort();
+            let mut t: Vec<(usize, usize)> = taken.iter().map(|(c, w)| (*w, c.statement_cache.size())).collect();
+            t.sort();
+            let mut idle: Vec<usize> = Vec::new();
+            let _ = pool.retain(|c, _| {
+                idle.push(c.statement_cache.size());
+                true
+            });
+            idle.sort();
+            let f = |v: &[(usize, usize)]| v.iter().map(|(a, b)| format!("{a}:{b}")).collect::<Vec<_>>().join(",");
+            emit(
+                "pw sizes".into(),
+                format!(
+                    "pwobs sizes held=[{}] taken=[{}] idle=[{}]",
+                    f(&h),
+                    f(&t),
+                    idle.iter().map(|x| x.to_string()).collect::<Vec<_>>().join(",")
+                ),
+                &mut hist,
+            );
+        }
+    }
+    hist.len()
+}
+
 fn arg<'a>(args: &'a [String], k: &str) -> Option<&'a str> {
     args.iter().position(|a| a == k).and_then(|i| args.get(i + 1)).map(|s| s.as_str())
 }
@@ -438,9 +770,278 @@ fn main() {
                 );
             }
         }
+        "wire" => {
+            let rt = tokio::runtime::Builder::new_current_thread().enable_all().build().unwrap();
+            let mut done = 0usize;
+            while done < n {
+                done += rt.block_on(wire_history(&mut r));
+            }
+        }
+        "probe" => {
+            let srv = wire::Server::start();
+            let rt = tokio::runtime::Builder::new_current_thread().enable_all().build().unwrap();
+            rt.block_on(async {
+                let mut pg = tokio_postgres::Config::new();
+                pg.host("127.0.0.1").port(srv.port).user("u").dbname("d");
+                let mgr = deadpool_postgres::Manager::from_config(
+                    pg, NoTls, ManagerConfig { recycling_method: RecyclingMethod::Verified });
+                let pool = deadpool_postgres::Pool::builder(mgr).max_size(2).build().unwrap();
+                let c = pool.get().await.unwrap();
+                let who = c.simple_query("WHOAMI").await.map(|v| v.len());
+                println!("whoami -> {:?}", who);
+                let st = c.prepare_typed_cached("SELECT $1", &[tokio_postgres::types::Type::INT4]).await;
+                println!("prepare -> {:?}", st.as_ref().map(|s| s.params().to_vec()));
+                let st = st.unwrap();
+                let r = c.execute(&st, &[&1i32]).await;
+                println!("execute -> {:?}", r);
+                println!("cache size {}", c.statement_cache.size());
+                drop(c);
+                srv.state.lock().unwrap().replies.push_back(wire::Reply::Error);
+                let c = pool.get().await;
+                println!("get after error ok={} status={:?}", c.is_ok(), pool.status());
+                srv.kill(1);
+                let c = c.unwrap();
+                for _ in 0..100 { if c.is_closed() { break; } tokio::time::sleep(Duration::from_millis(1)).await; }
+                println!("closed after kill: {}", c.is_closed());
+                drop(c);
+                let c = pool.get().await;
+                println!("get after kill ok={} status={:?}", c.is_ok(), pool.status());
+                let st = srv.state.lock().unwrap();
+                for (i, l) in st.conns.iter().enumerate() {
+                    println!("conn {i}: parses={:?} binds={:?} queries={:?}", l.parses, l.binds, l.queries);
+                }
+            });
+        }
         _ => {
             eprintln!("usage: h-pg cfg-diff --seed S --cases N | recycling");
             std::process::exit(2);
+        }
+    }
+}
+
+// ---------------------------------------------------------------------------------------------
+// wire (C16): the pool against a scripted PostgreSQL wire-protocol server
+// ---------------------------------------------------------------------------------------------
+
+pub mod wire {
+    use std::{
+        collections::VecDeque,
+        io::{Read, Write},
+        net::{Shutdown, TcpListener, TcpStream},
+        sync::{Arc, Mutex},
+    };
+
+    #[derive(Clone, Copy, Debug, PartialEq)]
+    pub enum Reply {
+        Ok,
+        Error,
+        Disconnect,
+    }
+
+    #[derive(Default)]
+    pub struct ConnLog {
+        /// statements prepared on this connection: (name, query, parameter type oids)
+        pub parses: Vec<(String, String, Vec<u32>)>,
+        /// statement names bound
+        pub binds: Vec<String>,
+        /// simple queries received (identity probes excluded), with a global sequence number
+        pub queries: Vec<(usize, String)>,
+        pub sock: Option<TcpStream>,
+    }
+
+    #[derive(Default)]
+    pub struct State {
+        pub conns: Vec<ConnLog>,
+        /// answers to the next simple queries
+        pub replies: VecDeque<Reply>,
+        pub seq: usize,
+    }
+
+    pub struct Server {
+        pub port: u16,
+        pub state: Arc<Mutex<State>>,
+    }
+
+    fn msg(tag: u8, body: &[u8]) -> Vec<u8> {
+        let mut v = vec![tag];
+        v.extend_from_slice(&((body.len() as u32 + 4).to_be_bytes()));
+        v.extend_from_slice(body);
+        v
+    }
+
+    fn cstr(b: &[u8], pos: &mut usize) -> String {
+        let start = *pos;
+        while *pos < b.len() && b[*pos] != 0 {
+            *pos += 1;
+        }
+        let s = String::from_utf8_lossy(&b[start..*pos]).to_string();
+        *pos += 1;
+        s
+    }
+
+    fn ready() -> Vec<u8> {
+        msg(b'Z', b"I")
+    }
+
+    fn error_response() -> Vec<u8> {
+        let mut b = Vec::new();
+        b.extend_from_slice(b"SERROR\0VERROR\0CXX000\0Mscripted failure\0\0");
+        msg(b'E', &b)
+    }
+
+    fn serve(mut s: TcpStream, idx: usize, state: Arc<Mutex<State>>) -> Option<()> {
+        // startup packet
+        let mut len = [0u8; 4];
+        s.read_exact(&mut len).ok()?;
+        let n = u32::from_be_bytes(len) as usize;
+        let mut body = vec![0u8; n.checked_sub(4)?];
+        s.read_exact(&mut body).ok()?;
+        let mut out = Vec::new();
+        out.extend(msg(b'R', &0u32.to_be_bytes()));
+        out.extend(msg(b'S', b"client_encoding\0UTF8\0"));
+        out.extend(msg(b'S', b"server_version\014.0\0"));
+        let mut k = Vec::new();
+        k.extend_from_slice(&(idx as u32).to_be_bytes());
+        k.extend_from_slice(&7u32.to_be_bytes());
+        out.extend(msg(b'K', &k));
+        out.extend(ready());
+        s.write_all(&out).ok()?;
+        loop {
+            let mut tag = [0u8; 1];
+            s.read_exact(&mut tag).ok()?;
+            s.read_exact(&mut len).ok()?;
+            let n = u32::from_be_bytes(len) as usize;
+            let mut b = vec![0u8; n.checked_sub(4)?];
+            s.read_exact(&mut b).ok()?;
+            let mut pos = 0usize;
+            let mut out: Vec<u8> = Vec::new();
+            match tag[0] {
+                b'Q' => {
+                    let q = cstr(&b, &mut pos);
+                    if q == "WHOAMI" {
+                        // identity probe: one row, one text column
+                        let mut rd = Vec::new();
+                        rd.extend_from_slice(&1u16.to_be_bytes());
+                        rd.extend_from_slice(b"id\0");
+                        rd.extend_from_slice(&0u32.to_be_bytes());
+                        rd.extend_from_slice(&0u16.to_be_bytes());
+                        rd.extend_from_slice(&25u32.to_be_bytes());
+                        rd.extend_from_slice(&(-1i16).to_be_bytes());
+                        rd.extend_from_slice(&(-1i32).to_be_bytes());
+                        rd.extend_from_slice(&0u16.to_be_bytes());
+                        out.extend(msg(b'T', &rd));
+                        let v = idx.to_string();
+                        let mut dr = Vec::new();
+                        dr.extend_from_slice(&1u16.to_be_bytes());
+                        dr.extend_from_slice(&(v.len() as u32).to_be_bytes());
+                        dr.extend_from_slice(v.as_bytes());
+                        out.extend(msg(b'D', &dr));
+                        out.extend(msg(b'C', b"SELECT 1\0"));
+                        out.extend(ready());
+                    } else {
+                        let r = {
+                            let mut st = state.lock().unwrap();
+                            st.seq += 1;
+                            let n = st.seq;
+                            st.conns[idx].queries.push((n, q.clone()));
+                            st.replies.pop_front().unwrap_or(Reply::Ok)
+                        };
+                        match r {
+                            Reply::Ok => {
+                                if q.trim().is_empty() {
+                                    out.extend(msg(b'I', b""));
+                                } else {
+                                    out.extend(msg(b'C', b"SET\0"));
+                                }
+                                out.extend(ready());
+                            }
+                            Reply::Error => {
+                                out.extend(error_response());
+                                out.extend(ready());
+                            }
+                            Reply::Disconnect => {
+                                let _ = s.shutdown(Shutdown::Both);
+                                return Some(());
+                            }
+                        }
+                    }
+                }
+                b'P' => {
+                    let name = cstr(&b, &mut pos);
+                    let query = cstr(&b, &mut pos);
+                    let n = u16::from_be_bytes([b[pos], b[pos + 1]]) as usize;
+                    pos += 2;
+                    let mut oids = Vec::new();
+                    for _ in 0..n {
+                        oids.push(u32::from_be_bytes([b[pos], b[pos + 1], b[pos + 2], b[pos + 3]]));
+                        pos += 4;
+                    }
+                    state.lock().unwrap().conns[idx].parses.push((name, query, oids));
+                    out.extend(msg(b'1', b""));
+                }
+                b'D' => {
+                    let kind = b[0];
+                    pos = 1;
+                    let name = cstr(&b, &mut pos);
+                    if kind == b'S' {
+                        let oids = {
+                            let st = state.lock().unwrap();
+                            st.conns[idx].parses.iter().rev().find(|p| p.0 == name).map(|p| p.2.clone()).unwrap_or_default()
+                        };
+                        let mut pd = Vec::new();
+                        pd.extend_from_slice(&(oids.len() as u16).to_be_bytes());
+                        for o in oids {
+                            pd.extend_from_slice(&o.to_be_bytes());
+                        }
+                        out.extend(msg(b't', &pd));
+                    }
+                    out.extend(msg(b'n', b""));
+                }
+                b'B' => {
+                    let _portal = cstr(&b, &mut pos);
+                    let name = cstr(&b, &mut pos);
+                    state.lock().unwrap().conns[idx].binds.push(name);
+                    out.extend(msg(b'2', b""));
+                }
+                b'E' => out.extend(msg(b'C', b"SELECT 0\0")),
+                b'C' => out.extend(msg(b'3', b"")),
+                b'S' => out.extend(ready()),
+                b'X' => return Some(()),
+                _ => {}
+            }
+            if !out.is_empty() {
+                s.write_all(&out).ok()?;
+            }
+        }
+    }
+
+    impl Server {
+        pub fn start() -> Server {
+            let l = TcpListener::bind("127.0.0.1:0").unwrap();
+            let port = l.local_addr().unwrap().port();
+            let state: Arc<Mutex<State>> = Arc::default();
+            let st = state.clone();
+            let _ = std::thread::spawn(move || {
+                for s in l.incoming().flatten() {
+                    let _ = s.set_nodelay(true);
+                    let idx = {
+                        let mut g = st.lock().unwrap();
+                        g.conns.push(ConnLog { sock: s.try_clone().ok(), ..Default::default() });
+                        g.conns.len() - 1
+                    };
+                    let st2 = st.clone();
+                    let _ = std::thread::spawn(move || {
+                        let _ = serve(s, idx, st2);
+                    });
+                }
+            });
+            Server { port, state }
+        }
+        /// the server hangs up on connection `idx`
+        pub fn kill(&self, idx: usize) {
+            if let Some(s) = self.state.lock().unwrap().conns[idx].sock.as_ref() {
+                let _ = s.shutdown(Shutdown::Both);
+            }
         }
     }
 }
